@@ -329,3 +329,14 @@ func (c *Conc) CallRets(ref string, args ...Val) (rets []Ret, err error) {
 	c.X.lastRets = nil
 	return rets, nil
 }
+
+// ElemT indexes a slice/array/string with a (possibly symbolic) index term.
+func (c *Conc) ElemT(v Val, i *T) Val { return c.E.index(v, i, nil) }
+
+// SetConfig sets a configuration parameter readable by contracts through config("name").
+func (c *Conc) SetConfig(name string, v int64) {
+	if c.X.Config == nil {
+		c.X.Config = map[string]int64{}
+	}
+	c.X.Config[name] = v
+}
